@@ -822,7 +822,11 @@ func (p *Program) inlineAt(cs *CallSite, cand *inlineCand, tag string, read func
 			}
 			t = sig.Params().At(k).Type()
 		}
-		fmt.Fprintf(&pdecl, "var %s %s = %s; _ = %s; ", nmv, typeStr(t), b.text, nmv)
+		if at := info.TypeOf(b.expr); at != nil && types.Identical(at, t) && b.text == ctext(b.expr) {
+			fmt.Fprintf(&pdecl, "%s := %s; _ = %s; ", nmv, b.text, nmv)
+		} else {
+			fmt.Fprintf(&pdecl, "var %s %s = %s; _ = %s; ", nmv, typeStr(t), b.text, nmv)
+		}
 	}
 	if !okQ {
 		return nil, nil, false
